@@ -63,12 +63,14 @@ def mj_extract(mjm, mjd):
     "struct": np.array([mjd.ne, mjd.nf, mjd.nl, mjd.nefc, mjd.ncon], dtype=np.float64),
     "mindist": np.array([float(mjd.contact.dist.min()) if mjd.ncon else 0.0]),
     "niter": np.array([_niter(mjd)], dtype=np.float64),
+    "sensordata": mjd.sensordata,
+    "energy": mjd.energy,
     "warn": np.array([sum(int(mjd.warning[i].number) for i in (int(mujoco.mjtWarning.mjWARN_INERTIA), int(mujoco.mjtWarning.mjWARN_BADQPOS), int(mujoco.mjtWarning.mjWARN_BADQVEL), int(mujoco.mjtWarning.mjWARN_BADQACC)))], dtype=np.float64),
   }
 
 
 def mjw_read(d):
-  out = {k: np.array(mw.npy(getattr(d, k))) for k in ("qpos", "qvel", "act", "time", "qacc_warmstart", "ne", "nf", "nl", "nefc", "overflow", "solver_niter")}
+  out = {k: np.array(mw.npy(getattr(d, k))) for k in ("qpos", "qvel", "act", "time", "qacc_warmstart", "ne", "nf", "nl", "nefc", "overflow", "solver_niter", "sensordata", "energy")}
   nacon = int(mw.npy(d.nacon)[0])
   wid = mw.npy(d.contact.worldid)[: min(nacon, d.naconmax)]
   out["ncon"] = np.bincount(wid[(wid >= 0)], minlength=d.nworld)[: d.nworld] if wid.size else np.zeros(d.nworld, dtype=int)
@@ -374,7 +376,7 @@ def judge_world(rec, mjm, got, w, st, ref, noise, prefix="", ctx="", a_acc=A_ACC
   return verdict
 
 
-def step_compare(rec, mjm, m, states, nsteps=1, seed=0, prefix="", entry=None, a_acc=A_ACC, **caps):
+def step_compare(rec, mjm, m, states, nsteps=1, seed=0, prefix="", entry=None, a_acc=A_ACC, extra=None, **caps):
   """Runs nsteps lock-steps (resynchronised on MuJoCo's float32-rounded result) for all worlds. Returns tallies."""
   import mujoco_warp as mjw
 
@@ -405,6 +407,8 @@ def step_compare(rec, mjm, m, states, nsteps=1, seed=0, prefix="", entry=None, a
     for w, st in enumerate(states):
       ref, noise, mjd = cmp.reference(mjm, st, mj_stage, mj_extract, seed=seed + 17 * w + 1009 * k)
       v = judge_world(rec, mjm, got, w, st, ref, noise, prefix=prefix, ctx=f"world {w} step {k}", a_acc=a_acc)
+      if extra is not None:
+        extra(rec, got, w, st, ref, noise, v)
       out[v] += 1
       if k == 0:
         out["refs"].append(ref)
